@@ -1,4 +1,5 @@
-"""C16 -- arenas: slot range/uniqueness, isolation-preserving critical-task pickup, granted-worker delta."""
+"""C16 -- arenas: slot range/uniqueness, isolation-preserving critical-task pickup, granted-worker delta, worker allotment (market::update_allotment),
+request clamps and demand bookkeeping (arena/pm_client::update_request, market::adjust_demand), pending-delta serializer, EMPTY/FULL/busy flag protocol."""
 import os
 import sys
 import re
@@ -12,9 +13,17 @@ from cxx2c import Rewriter, slice_block, tag_loops, ExtractionBreak, load
 from prove import Job
 
 TRS = 'src/tbb/thread_request_serializer.cpp'
+MK = 'src/tbb/market.cpp'
+PMC = 'src/tbb/pm_client.h'
+MISC = 'src/tbb/misc.h'
+UTILS = 'include/oneapi/tbb/detail/_utils.h'
+TA_H = 'include/oneapi/tbb/task_arena.h'
 TD = 'src/tbb/task_dispatcher.h'
 AR = 'src/tbb/arena.cpp'
 AS = 'src/tbb/arena_slot.h'
+AH = 'src/tbb/arena.h'
+PM_H = 'src/tbb/permit_manager.h'
+TRS_H = 'src/tbb/thread_request_serializer.h'
 
 
 def extract(ctx):
@@ -82,25 +91,362 @@ def extract(ctx):
     return sliced, fired
 
 
+def extract_allot(ctx, sliced, fired):
+    """market::update_allotment with its callees (pm_client accessors, set_allotment, arena::set_allotment/set_top_priority, min)."""
+    rw = Rewriter('allot')
+    out = []
+    # the number of priority levels is a constant of the public header
+    st = cxx2c.slice_stmt(TA_H, r'static constexpr unsigned num_priority_levels\s*=')
+    m = re.search(r'num_priority_levels\s*=\s*(\d+)\s*;', st.text)
+    if not m or int(m.group(1)) != 3:
+        raise ExtractionBreak('d1::num_priority_levels is no longer the literal 3 (the harness unwinds the level loop 3 times)')
+    sliced.append('%s:%d d1::num_priority_levels' % (TA_H, st.line))
+    out.append('#define num_priority_levels ((unsigned)%s)' % m.group(1))
+    # misc.h min<T>, T := int
+    s = slice_block(MISC, r'T min \( const T& val1, const T& val2 \)')
+    sliced.append('%s:%d min<int>' % (MISC, s.line))
+    t = rw.sub(s.text, r'T min \( const T& val1, const T& val2 \)', 'static int tbb_min_int(int val1, int val2)', 1, 1, name='sig + bind-template(T:=int), const& -> value')
+    out.append(t)
+    # arena::set_allotment / set_top_priority
+    s = slice_block(AR, r'void arena::set_allotment\(unsigned allotment\)')
+    sliced.append('%s:%d arena::set_allotment' % (AR, s.line))
+    t = rw.sub(s.text, r'void arena::set_allotment\(unsigned allotment\)', 'static void arena_set_allotment(struct arena_a* self, unsigned allotment)', 1, 1, name='sig')
+    t = rw.atomics(t, ['my_num_workers_allotted'], 0)
+    t = rw.fields(t, ['my_num_workers_allotted'], 0)
+    out.append(rw.std(t))
+    s = slice_block(AR, r'void arena::set_top_priority\(bool is_top_priority\)')
+    sliced.append('%s:%d arena::set_top_priority' % (AR, s.line))
+    t = rw.sub(s.text, r'void arena::set_top_priority\(bool is_top_priority\)', 'static void arena_set_top_priority(struct arena_a* self, bool is_top_priority)', 1, 1, name='sig')
+    t = rw.atomics(t, ['my_is_top_priority'], 0)
+    t = rw.fields(t, ['my_is_top_priority'], 0)
+    out.append(rw.std(t))
+    # pm_client accessors
+    for meth, ret, par, cpar in (('min_workers', 'int', r'\(\) const', ''), ('max_workers', 'int', r'\(\) const', ''), ('set_top_priority', 'void', r'\(bool b\)', ', bool b')):
+        s = slice_block(PMC, ret + ' ' + meth + par, within=r'class pm_client\b')
+        sliced.append('%s:%d pm_client::%s' % (PMC, s.line, meth))
+        t = rw.sub(s.text, ret + ' ' + meth + par, 'static %s pm_client_%s(struct pmclient* self%s)' % (ret, meth, cpar), 1, 1, name='sig')
+        t = rw.sub(t, r'\bmy_arena\.set_top_priority\(', 'arena_set_top_priority(PMC_ARENA(self), ', 0, name='reference member my_arena -> PMC_ARENA(self): the arena this client was created for')
+        t = rw.fields(t, ['my_min_workers', 'my_max_workers'], 0)
+        out.append(rw.std(t))
+    s = slice_block(MK, r'void set_allotment\(unsigned allotment\)', within=r'class tbb_permit_manager_client\b')
+    sliced.append('%s:%d tbb_permit_manager_client::set_allotment' % (MK, s.line))
+    t = rw.sub(s.text, r'void set_allotment\(unsigned allotment\)', 'static void tpmc_set_allotment(struct pmclient* self, unsigned allotment)', 1, 1, name='sig')
+    t = rw.sub(t, r'\bmy_arena\.set_allotment\(', 'arena_set_allotment(PMC_ARENA(self), ', 0, name='reference member my_arena -> PMC_ARENA(self): the arena this client was created for')
+    out.append(rw.std(t))
+    common.write(ctx, 'allot_callees.inc', '\n'.join(out) + '\n')
+    # market::update_allotment
+    s = slice_block(MK, r'void market::update_allotment\(\)')
+    sliced.append('%s:%d market::update_allotment' % (MK, s.line))
+    t = rw.sub(s.text, r'void market::update_allotment\(\)', 'void market_update_allotment(struct market* self)', 1, 1, name='sig')
+    t = rw.fields(t, ['my_mandatory_num_requested', 'my_num_workers_soft_limit', 'my_total_demand', 'my_priority_level_demand', 'my_clients'], 4)
+    t = rw.sub(t, r'(?<![\w.>:])min\(', 'tbb_min_int(', 0, name='min<int>')
+    t = rw.sub(t, r'auto it = (self->my_clients\[list_idx\])\.rbegin\(\)', r'size_t it = CLIST_RBEGIN(\1)', 1, 1, name='reverse iterator -> reverse position index (begin)')
+    t = rw.sub(t, r'(self->my_clients\[list_idx\])\.rend\(\)', r'CLIST_REND(\1)', 1, 1, name='reverse iterator -> reverse position index (end)')
+    t = rw.sub(t, r'tbb_permit_manager_client& client = static_cast<tbb_permit_manager_client&>\(\*\*it\);', 'struct pmclient* client = CLIST_DEREF(it);', 1, 1, name='reference to the element under the iterator -> pointer')
+    t = rw.sub(t, r'\bclient\.', 'client->', 1, name='ref-local')
+    t = rw.sub(t, r'client->(max_workers|min_workers)\(\)', r'pm_client_\1(client)', 1, name='method')
+    t = rw.sub(t, r'client->set_top_priority\(', 'CLIENT_SET_TOP(client, ', 0, name='method (behaviour-bearing; the macro checks the flag and calls the sliced set_top_priority)')
+    t = rw.sub(t, r'client->set_allotment\(', 'CLIENT_SET_ALLOTMENT(client, ', 0, name='method (behaviour-bearing; the macro counts the grant and calls the sliced set_allotment)')
+    # the three non-linear operations get a name so that the unbounded job can replace them by their defining contract; the width-bounded job maps the names back to * / %
+    t = rw.sub(t, r'(pm_client_max_workers\(client\)) \* (assigned_per_priority)\b', r'ALLOT_MUL(\1, \2)', 0, name='a * b -> ALLOT_MUL(a, b)')
+    t = rw.sub(t, r'\btmp / (self->my_priority_level_demand\[list_idx\])', r'ALLOT_DIV(tmp, \1)', 0, name='a / b -> ALLOT_DIV(a, b)')
+    t = rw.sub(t, r'\btmp % (self->my_priority_level_demand\[list_idx\])', r'ALLOT_MOD(tmp, \1)', 0, name='a % b -> ALLOT_MOD(a, b)')
+    t = rw.asserts(t, 0)
+    t = rw.std(t)
+    t = tag_loops(t, 'ua', rw, expect=2)
+    common.write(ctx, 'allot.inc', t + '\n')
+    fired['allot'] = rw.fired
+
+
+def extract_req(ctx, sliced, fired):
+    """arena::update_request (+clamp<int>, is_arena_workerless), pm_client::update_request/set_workers/priority_level, market::adjust_demand/set_active_num_workers,
+    permit_manager::notify_thread_request."""
+    rw = Rewriter('request')
+    out = []
+    s = slice_block(UTILS, r'T clamp\(T value, T lower_bound, T upper_bound\)')
+    sliced.append('%s:%d clamp<int>' % (UTILS, s.line))
+    t = rw.sub(s.text, r'T clamp\(T value, T lower_bound, T upper_bound\)', 'static int tbb_clamp_int(int value, int lower_bound, int upper_bound)', 1, 1, name='sig + bind-template(T:=int)')
+    out.append(rw.std(rw.asserts(t, 0)))
+    s = slice_block(AH, r'bool is_arena_workerless\(\) const', within=r'class arena\s*:')
+    sliced.append('%s:%d arena::is_arena_workerless' % (AH, s.line))
+    t = rw.sub(s.text, r'bool is_arena_workerless\(\) const', 'static bool arena_is_arena_workerless(struct arena_r* self)', 1, 1, name='sig')
+    out.append(rw.fields(t, ['my_max_num_workers'], 1))
+    s = slice_block(AH, r'unsigned priority_level\(\)', within=r'class arena\s*:')
+    sliced.append('%s:%d arena::priority_level' % (AH, s.line))
+    t = rw.sub(s.text, r'unsigned priority_level\(\)', 'static unsigned arena_priority_level(struct arena_r* self)', 1, 1, name='sig')
+    out.append(rw.fields(t, ['my_priority_level'], 1))
+    s = slice_block(AR, r'std::pair<int, int> arena::update_request\(int mandatory_delta, int workers_delta\)')
+    sliced.append('%s:%d arena::update_request' % (AR, s.line))
+    t = rw.sub(s.text, r'std::pair<int, int> arena::update_request\(int mandatory_delta, int workers_delta\)', 'static struct int_pair arena_update_request(struct arena_r* self, int mandatory_delta, int workers_delta)', 1, 1, name='sig (std::pair<int,int> -> struct int_pair {first, second})')
+    t = rw.fields(t, ['my_mandatory_requests', 'my_total_num_workers_requested', 'my_max_num_workers'], 3)
+    t = rw.sub(t, r'(?<![\w.>:])clamp\(', 'tbb_clamp_int(', 0, name='clamp<int>')
+    t = rw.sub(t, r'(?<![\w.>:])is_arena_workerless\(\)', 'arena_is_arena_workerless(self)', 0, name='method')
+    t = rw.sub(t, r'return \{ (\w+), (\w+) \};', r'return (struct int_pair){ \1, \2 };', 1, 1, name='braced pair return -> compound literal')
+    out.append(rw.std(rw.asserts(t, 0)))
+    # pm_client
+    s = slice_block(PMC, r'unsigned priority_level\(\)', within=r'class pm_client\b')
+    sliced.append('%s:%d pm_client::priority_level' % (PMC, s.line))
+    t = rw.sub(s.text, r'unsigned priority_level\(\)', 'static unsigned pm_client_priority_level(struct pmclient* self)', 1, 1, name='sig')
+    t = rw.sub(t, r'\bmy_arena\.priority_level\(\)', 'arena_priority_level(PMC_ARENA(self))', 1, 1, name='reference member my_arena -> PMC_ARENA(self)')
+    out.append(t)
+    s = slice_block(PMC, r'void set_workers\(int mn_w, int mx_w\)', within=r'class pm_client\b')
+    sliced.append('%s:%d pm_client::set_workers' % (PMC, s.line))
+    t = rw.sub(s.text, r'void set_workers\(int mn_w, int mx_w\)', 'static void pm_client_set_workers(struct pmclient* self, int mn_w, int mx_w)', 1, 1, name='sig')
+    t = rw.fields(t, ['my_min_workers', 'my_max_workers'], 0)
+    out.append(rw.std(rw.asserts(t, 0)))
+    s = slice_block(PMC, r'int update_request\(int mandatory_delta, int workers_delta\)', within=r'class pm_client\b')
+    sliced.append('%s:%d pm_client::update_request' % (PMC, s.line))
+    t = rw.sub(s.text, r'int update_request\(int mandatory_delta, int workers_delta\)', 'static int pm_client_update_request(struct pmclient* self, int mandatory_delta, int workers_delta)', 1, 1, name='sig')
+    t = rw.sub(t, r'auto min_max_workers = my_arena\.update_request\(', 'struct int_pair min_max_workers = arena_update_request(PMC_ARENA(self), ', 1, 1, name='auto -> struct int_pair; reference member my_arena -> PMC_ARENA(self)')
+    t = rw.sub(t, r'(?<![\w.>:])set_workers\(', 'pm_client_set_workers(self, ', 0, name='method (behaviour-bearing)')
+    t = rw.fields(t, ['my_min_workers', 'my_max_workers'], 0)
+    out.append(rw.std(t))
+    # permit_manager::notify_thread_request
+    s = slice_block(PM_H, r'void notify_thread_request\(int delta\)')
+    sliced.append('%s:%d permit_manager::notify_thread_request' % (PM_H, s.line))
+    t = rw.sub(s.text, r'void notify_thread_request\(int delta\)', 'static void market_notify_thread_request(struct market* self, int delta)', 1, 1, name='sig')
+    t = rw.sub(t, r'my_thread_request_observer->update\(delta\);', 'STUB_observer_update(self, delta);', 0, name='callee stub (behaviour-bearing): thread_request_serializer_proxy::update')
+    t = rw.fields(t, ['my_thread_request_observer'], 0)
+    out.append(rw.std(rw.asserts(t, 0)))
+    # market
+    s = slice_block(MK, r'void market::adjust_demand\(pm_client& c, int mandatory_delta, int workers_delta\)')
+    sliced.append('%s:%d market::adjust_demand' % (MK, s.line))
+    t = rw.sub(s.text, r'void market::adjust_demand\(pm_client& c, int mandatory_delta, int workers_delta\)', 'void market_adjust_demand(struct market* self, struct pmclient* c, int mandatory_delta, int workers_delta)', 1, 1, name='sig')
+    t = rw.sub(t, r'int delta\{\};', 'int delta = 0;', 1, 1, name='value-initialisation {} -> = 0')
+    t = rw.fields(t, ['my_total_demand', 'my_priority_level_demand', 'my_mandatory_num_requested', 'my_mutex'], 1)
+    t = rw.scoped_locks(t, r'mutex_type::scoped_lock lock\(([^()]*)\);', 1, 1)
+    t = rw.sub(t, r'\bc\.update_request\(', 'pm_client_update_request(c, ', 0, name='method (behaviour-bearing)')
+    t = rw.sub(t, r'\bc\.priority_level\(\)', 'pm_client_priority_level(c)', 0, name='method')
+    t = rw.sub(t, r'(?<![\w.>:])update_allotment\(\);', 'STUB_update_allotment(self);', 0, name='callee stub (behaviour-bearing): market::update_allotment, proved by the allot.* jobs under the precondition this stub checks')
+    t = rw.sub(t, r'(?<![\w.>:])notify_thread_request\(', 'market_notify_thread_request(self, ', 0, name='method (behaviour-bearing)')
+    out.append(rw.std(rw.asserts(t, 0)))
+    s = slice_block(MK, r'void market::set_active_num_workers\(int soft_limit\)')
+    sliced.append('%s:%d market::set_active_num_workers' % (MK, s.line))
+    t = rw.sub(s.text, r'void market::set_active_num_workers\(int soft_limit\)', 'void market_set_active_num_workers(struct market* self, int soft_limit)', 1, 1, name='sig')
+    t = rw.fields(t, ['my_num_workers_soft_limit', 'my_mutex'], 1)
+    t = rw.scoped_locks(t, r'mutex_type::scoped_lock lock\(([^()]*)\);', 1, 1)
+    t = rw.sub(t, r'(?<![\w.>:])update_allotment\(\);', 'STUB_update_allotment(self);', 0, name='callee stub (behaviour-bearing): market::update_allotment')
+    out.append(rw.std(t))
+    common.write(ctx, 'request.inc', '\n'.join(out) + '\n')
+    fired['request'] = rw.fired
+
+
+def extract_trs(ctx, sliced, fired):
+    """thread_request_serializer::update / set_active_num_workers (packed pending-delta word + mutex section)."""
+    rw = Rewriter('serializer')
+    out = []
+    st = cxx2c.slice_stmt(TRS_H, r'static constexpr std::uint64_t pending_delta_base\s*=')
+    m = re.search(r'pending_delta_base\s*=\s*([^;]+);', st.text)
+    if not m:
+        raise ExtractionBreak('pending_delta_base initialiser not found')
+    sliced.append('%s:%d thread_request_serializer::pending_delta_base' % (TRS_H, st.line))
+    common.write(ctx, 'serializer_defs.inc', '#define pending_delta_base ((uint64_t)(%s))\n' % m.group(1).strip())
+    s = slice_block(TRS, r'int thread_request_serializer::limit_delta\(int delta, int limit, int new_value\)')
+    t = rw.sub(s.text, r'int thread_request_serializer::limit_delta\(', 'static int trs_limit_delta(', 1, 1, name='sig')
+    t = rw.sub(t, r'\bmin\(', 'VERIF_min(', 2, 2, name='std::min')
+    out.append(t)
+    flds = ['my_pending_delta', 'my_total_request', 'my_soft_limit', 'my_mutex']
+    for fn, sig, csig in (('upd', r'void thread_request_serializer::update\(int delta\)', 'void trs_update(struct trs* self, int delta)'),
+                          ('sanw', r'void thread_request_serializer::set_active_num_workers\(int soft_limit\)', 'void trs_set_active_num_workers(struct trs* self, int soft_limit)')):
+        s = slice_block(TRS, sig)
+        sliced.append('%s:%d %s' % (TRS, s.line, sig.replace('\\', '')[5:]))
+        t = rw.sub(s.text, sig, csig, 1, 1, name='sig')
+        t = rw.atomics(t, ['my_pending_delta', 'my_total_request'], 0)
+        t = rw.fields(t, flds, 1)
+        t = rw.scoped_locks(t, r'mutex_type::scoped_lock lock\(([^()]*)\);', 1, 1)
+        t = rw.sub(t, r'(?<![\w.>:])limit_delta\(', 'trs_limit_delta(', 0, name='method (static)')
+        t = rw.sub(t, r'my_thread_dispatcher\.adjust_job_count_estimate\(', 'STUB_adjust_job_count_estimate(self, ', 0, name='callee stub (behaviour-bearing): thread_dispatcher::adjust_job_count_estimate')
+        t = rw.fcasts(t, ['int'], 0)
+        t = rw.std(t)
+        t = rw.number_sites(t, fn, by_kind=True)
+        out.append(t)
+    common.write(ctx, 'serializer.inc', '\n'.join(out) + '\n')
+    fired['serializer'] = rw.fired
+
+
+def extract_flag(ctx, sliced, fired):
+    """arena.h atomic_flag::test_and_set / try_clear_if<Pred> (the EMPTY/FULL/busy snapshot word) and their users arena::advertise_new_work<work_type>, arena::out_of_work."""
+    rw = Rewriter('flag')
+    out = []
+    cls = r'class atomic_flag\b'
+    defs = []
+    for nm in ('SET', 'UNSET'):
+        st = cxx2c.slice_stmt(AH, r'static const std::uintptr_t %s\s*=' % nm)
+        m = re.search(r'%s\s*=\s*(\d+)\s*;' % nm, st.text)
+        if not m:
+            raise ExtractionBreak('atomic_flag::%s is no longer an integer literal' % nm)
+        defs.append('#define FLAG_%s ((uintptr_t)%s)' % (nm, m.group(1)))
+        sliced.append('%s:%d atomic_flag::%s' % (AH, st.line, nm))
+    common.write(ctx, 'flag_defs.inc', '\n'.join(defs) + '\n')
+    s = slice_block(AH, r'bool test_and_set\(\)', within=cls)
+    sliced.append('%s:%d atomic_flag::test_and_set' % (AH, s.line))
+    t = rw.sub(s.text, r'bool test_and_set\(\)', 'bool flag_test_and_set(struct atomic_flag* self)', 1, 1, name='sig')
+    t = rw.atomics(t, ['my_state'], 0)
+    t = rw.fields(t, ['my_state'], 0)
+    t = rw.sub(t, r'\b(SET|UNSET)\b', r'FLAG_\1', 1, name='class constant -> macro')
+    t = rw.sub(t, r'__TBB_fallthrough;', 'RG_NOP();', 0, name='[[fallthrough]] -> RG_NOP()')
+    t = rw.std(t)
+    t = rw.number_sites(t, 'tas', by_kind=True)
+    out.append(t)
+    s = slice_block(AH, r'bool try_clear_if\(Pred&& pred\)', within=cls)
+    sliced.append('%s:%d atomic_flag::try_clear_if' % (AH, s.line))
+    t = rw.sub(s.text, r'bool try_clear_if\(Pred&& pred\)', 'bool flag_try_clear_if(struct atomic_flag* self)', 1, 1, name='sig (the predicate object becomes the harness stub STUB_pred)')
+    t = rw.sub(t, r'(?<![\w.>:])pred\(\)', 'STUB_pred()', 0, name='callee stub (behaviour-bearing): the snapshot predicate')
+    t = rw.atomics(t, ['my_state'], 0)
+    t = rw.fields(t, ['my_state'], 0)
+    t = rw.sub(t, r'\b(SET|UNSET)\b', r'FLAG_\1', 1, name='class constant -> macro')
+    t = rw.std(t)
+    t = rw.fcasts(t, ['uintptr_t'], 0)
+    t = rw.number_sites(t, 'tci', by_kind=True)
+    out.append(t)
+    common.write(ctx, 'flag.inc', '\n'.join(out) + '\n')
+    # users
+    out = []
+    st = slice_block(AH, r'enum new_work_type', within=r'class arena\s*:')
+    sliced.append('%s:%d arena::new_work_type' % (AH, st.line))
+    out.append(st.text + ';')
+    s = slice_block(AH, r'bool is_arena_workerless\(\) const', within=r'class arena\s*:')
+    t = rw.sub(s.text, r'bool is_arena_workerless\(\) const', 'static bool arena_w_is_arena_workerless(struct arena_w* self)', 1, 1, name='sig')
+    out.append(rw.fields(t, ['my_max_num_workers'], 1))
+    s = slice_block(AH, r'void arena::advertise_new_work\(\)')
+    sliced.append('%s:%d arena::advertise_new_work<work_type>' % (AH, s.line))
+    t = rw.sub(s.text, r'void arena::advertise_new_work\(\)', 'void arena_advertise_new_work(struct arena_w* self, const enum new_work_type work_type)', 1, 1, name='sig + template parameter -> parameter')
+    t = rw.sub(t, r'atomic_fence_seq_cst\(\);', 'RG_NOP();', 0, name='fence -> RG_NOP() (SC assumed)')
+    t = rw.sub(t, r'\b(my_mandatory_concurrency|my_pool_state)\.test_and_set\(\)', r'FLAG_TEST_AND_SET(self->\1)', 0, name='callee stub (behaviour-bearing): atomic_flag::test_and_set, proved by flag.test_and_set')
+    t = rw.fields(t, ['my_num_slots', 'my_num_reserved_slots', 'my_max_num_workers'], 1)
+    t = rw.sub(t, r'(?<![\w.>:])is_arena_workerless\(\)', 'arena_w_is_arena_workerless(self)', 0, name='method')
+    t = rw.sub(t, r'(?<![\w.>:])request_workers\(', 'STUB_request_workers(self, ', 0, name='callee stub (behaviour-bearing): arena::request_workers -> threading_control::adjust_demand')
+    out.append(rw.std(t))
+    s = slice_block(AR, r'void arena::out_of_work\(\)')
+    sliced.append('%s:%d arena::out_of_work' % (AR, s.line))
+    t = rw.sub(s.text, r'void arena::out_of_work\(\)', 'void arena_out_of_work(struct arena_w* self)', 1, 1, name='sig')
+    t = rw.sub(t, r'\b(my_mandatory_concurrency|my_pool_state)\.try_clear_if\(\[this\] \{ return ([^;]*); \}\)', r'FLAG_TRY_CLEAR_IF(self->\1, \2)', 0, name='callee stub (behaviour-bearing): atomic_flag::try_clear_if with the lambda body as lazily evaluated predicate, proved by flag.try_clear_if')
+    t = rw.sub(t, r'(?<![\w.>:])has_enqueued_tasks\(\)', 'STUB_has_enqueued_tasks(self)', 0, name='callee stub: fifo stream not empty')
+    t = rw.sub(t, r'(?<![\w.>:])has_tasks\(\)', 'STUB_has_tasks(self)', 0, name='callee stub: any slot / stream holds a task')
+    t = rw.fields(t, ['my_max_num_workers'], 1)
+    t = rw.sub(t, r'(?<![\w.>:])is_arena_workerless\(\)', 'arena_w_is_arena_workerless(self)', 0, name='method')
+    t = rw.sub(t, r'(?<![\w.>:])request_workers\(', 'STUB_request_workers3(self, ', 0, name='callee stub (behaviour-bearing): arena::request_workers (default wakeup_threads = false)')
+    out.append(rw.std(t))
+    common.write(ctx, 'advertise.inc', '\n'.join(out) + '\n')
+    # the snapshot itself: arena::has_tasks (+ has_enqueued_tasks, arena_slot::is_empty)
+    out = []
+    if not re.search(r'static d1::task\*\* const EmptyTaskPool\s*=\s*nullptr;', load(AS)):
+        raise ExtractionBreak('EmptyTaskPool is no longer nullptr')
+    s = slice_block(AS, r'bool is_empty\(\) const')
+    sliced.append('%s:%d arena_slot::is_empty' % (AS, s.line))
+    t = rw.sub(s.text, r'bool is_empty\(\) const', 'static bool slot_is_empty(struct slot_t* self)', 1, 1, name='sig')
+    t = rw.atomics(t, ['task_pool', 'head', 'tail'], 0)
+    t = rw.fields(t, ['task_pool', 'head', 'tail'], 0)
+    out.append(rw.std(t))
+    s = slice_block(AR, r'bool arena::has_enqueued_tasks\(\)')
+    sliced.append('%s:%d arena::has_enqueued_tasks' % (AR, s.line))
+    t = rw.sub(s.text, r'bool arena::has_enqueued_tasks\(\)', 'static bool arena_has_enqueued_tasks(struct arena_t* self)', 1, 1, name='sig')
+    t = rw.sub(t, r'\b(my_fifo_task_stream)\.empty\(\)', r'STREAM_EMPTY(self->\1)', 0, name='callee stub: task_stream::empty (population word == 0)')
+    out.append(rw.std(t))
+    s = slice_block(AR, r'bool arena::has_tasks\(\)')
+    sliced.append('%s:%d arena::has_tasks' % (AR, s.line))
+    t = cxx2c.cpp_resolve(s.text, {'__TBB_PREVIEW_CRITICAL_TASKS': 1}, 'has_tasks')
+    rw.fired['cpp-resolve(__TBB_PREVIEW_CRITICAL_TASKS=1, _config.h)'] = 1
+    if not re.search(r'#define __TBB_PREVIEW_CRITICAL_TASKS\s+1\b', load('include/oneapi/tbb/detail/_config.h')):
+        raise ExtractionBreak('__TBB_PREVIEW_CRITICAL_TASKS is no longer defined to 1 in _config.h')
+    t = rw.sub(t, r'bool arena::has_tasks\(\)', 'bool arena_has_tasks(struct arena_t* self)', 1, 1, name='sig')
+    t = rw.atomics(t, ['my_limit'], 0)
+    t = rw.fields(t, ['my_limit'], 0)
+    t = rw.sub(t, r'(?<![\w.>])my_slots\[([^\]]*)\]\.is_empty\(\)', r'slot_is_empty(&self->my_slots[\1])', 0, name='method')
+    t = rw.sub(t, r'(?<![\w.>:])has_enqueued_tasks\(\)', 'arena_has_enqueued_tasks(self)', 0, name='method')
+    t = rw.sub(t, r'\b(my_resume_task_stream|my_critical_task_stream)\.empty\(\)', r'STREAM_EMPTY(self->\1)', 0, name='callee stub: task_stream::empty (population word == 0)')
+    t = rw.std(t)
+    t = tag_loops(t, 'ht', rw, expect=1)
+    out.append(t)
+    common.write(ctx, 'has_tasks.inc', '\n'.join(out) + '\n')
+    fired['flag'] = rw.fired
+
+
 def build(ctx):
     sliced, fired = extract(ctx)
+    extract_flag(ctx, sliced, fired)
+    extract_trs(ctx, sliced, fired)
+    extract_allot(ctx, sliced, fired)
+    extract_req(ctx, sliced, fired)
     C = os.path.join(HERE, 'c16.c')
+    vmax = 15 if getattr(ctx, 'tier', 'quick') == 'thorough' else 7
     jobs = [
         Job('budget.limit_delta', C, 'h_limit_delta', route='LF', defines=['LD'], target='thread_request_serializer::limit_delta', source=TRS),
         Job('isolation.get_critical_task', C, 'h_critical', route='LF', defines=['CRIT'], target='task_dispatcher::get_critical_task', source=TD),
         Job('slots.try_occupy', C, 'h_try_occupy', route='RG', defines=['SLOTS'], target='arena_slot::try_occupy', source=AS),
         Job('slots.occupy_in_range', C, 'h_in_range', route='LC', loops=True, nloops=2, defines=['SLOTS'], target='arena::occupy_free_slot_in_range', source=AR, timeout=600),
+        Job('allot.update_allotment.proportional', C, 'h_allot', route='LC', loops=True, nloops=2, defines=['ALLOT'], target='market::update_allotment, soft limit > 0 (+ pm_client accessors, set_allotment, arena::set_allotment/set_top_priority)', source=MK, timeout=600,
+            inputs=['IN_soft', 'IN_mand', 'IN_d0', 'IN_d1', 'IN_d2', 'IN_n0', 'IN_n1', 'IN_n2']),
+        Job('allot.update_allotment.soft0', C, 'h_allot', route='LC', loops=True, nloops=2, defines=['ALLOT', 'SOFT0'], target='market::update_allotment, soft limit 0 (mandatory concurrency)', source=MK, timeout=600,
+            inputs=['IN_soft', 'IN_mand', 'IN_d0', 'IN_d1', 'IN_d2', 'IN_n0', 'IN_n1', 'IN_n2']),
+        Job('allot.lemma', C, 'h_allot_lemma', route='BD', defines=['ALLOT_LEMMA', 'LEMMA_LIM=32'], target='step contract SL of the proportional split, with the real * / % (justifies the abstraction used by allot.update_allotment.proportional)', source=MK, timeout=300,
+            solver='cadical', bound_text='all six operands < 32 (5 bits)', inputs=['IN_d', 'IN_app', 'IN_mw', 'IN_S', 'IN_A', 'IN_c']),
+        Job('allot.update_allotment.real_ops', C, 'h_allot', route='BD', loops=True, nloops=2, defines=['ALLOT_REAL', 'VALMAX=%d' % vmax], solver='cadical',
+            target='market::update_allotment with the real * / % and the non-linear split invariant, any number of clients', source=MK, timeout=600,
+            bound_text='level demands and soft limit <= %d; client lists of any length' % vmax, inputs=['IN_soft', 'IN_mand', 'IN_d0', 'IN_d1', 'IN_d2', 'IN_n0', 'IN_n1', 'IN_n2']),
+        Job('request.arena_update_request', C, 'h_arena_update_request', route='LF', defines=['REQ'], target='arena::update_request (+ clamp<int>, is_arena_workerless)', source=AR, inputs=['IN_mand', 'IN_total', 'IN_md', 'IN_wd', 'IN_maxw']),
+        Job('request.pm_client_update_request', C, 'h_pm_update_request', route='LF', defines=['REQ'], target='pm_client::update_request, set_workers', source=PMC, inputs=['IN_mand', 'IN_total', 'IN_md', 'IN_wd', 'IN_maxw']),
+        Job('request.adjust_demand', C, 'h_adjust_demand', route='LF', defines=['REQ'], target='market::adjust_demand (+ pm_client::update_request, arena::update_request, permit_manager::notify_thread_request)', source=MK, inputs=['IN_mand', 'IN_total', 'IN_md', 'IN_wd', 'IN_maxw']),
+        Job('request.set_active_num_workers', C, 'h_set_active', route='LF', defines=['REQ'], target='market::set_active_num_workers', source=MK),
+        Job('flag.test_and_set', C, 'h_flag_test_and_set', route='RG', defines=['FLAG'], target='atomic_flag::test_and_set (arena::my_pool_state / my_mandatory_concurrency)', source=AH),
+        Job('flag.try_clear_if', C, 'h_flag_try_clear_if', route='RG', defines=['FLAG'], target='atomic_flag::try_clear_if<Pred>', source=AH),
+        Job('request.advertise_new_work', C, 'h_advertise', route='LF', defines=['ADV'], target='arena::advertise_new_work<work_type>', source=AH),
+        Job('request.out_of_work', C, 'h_out_of_work', route='LF', defines=['ADV'], target='arena::out_of_work', source=AR),
+        Job('empty.has_tasks', C, 'h_has_tasks', route='LC', loops=True, nloops=1, defines=['HT'], target='arena::has_tasks (+ has_enqueued_tasks, arena_slot::is_empty)', source=AR),
+        Job('serializer.update', C, 'h_trs_update', route='RG', defines=['TRSQ'], target='thread_request_serializer::update (pending sum within 16 bits)', source=TRS, inputs=['IN_delta', 'IN_pend']),
+        Job('serializer.update.wide', C, 'h_trs_update', route='RG', defines=['TRSQ', 'WIDE'], target='thread_request_serializer::update (one call, delta beyond 16 bits)', source=TRS, inputs=['IN_delta', 'IN_pend']),
+        Job('serializer.set_active_num_workers', C, 'h_trs_set_active', route='RG', defines=['TRSQ'], target='thread_request_serializer::set_active_num_workers', source=TRS, inputs=['IN_soft']),
         Job('slots.occupy_free_slot', C, 'h_occupy', route='LC', loops=True, defines=['SLOTS'], target='arena::occupy_free_slot<as_worker> (modular over the loops\' contracts)', source=AR, timeout=600),
     ]
     return {
         'jobs': jobs, 'sliced': sliced, 'fired': fired,
-        'trusted': ['arena::get_critical_task, r1::spawn (stamps the spawned task with the dispatcher\'s current isolation), observers: stubs', 'FastRandom::get(): arbitrary value', 'SC atomics; my_is_occupied is only written by try_occupy/release'],
-        'drops': ['debug pointer/task validity checks -> RG_NOP()', 'local reference aliases (td, a, slot)', 'template<bool as_worker> -> parameter'],
-        'not_decided': ['"at any instant" thread counts', 'observer entry/exit pairing', 'global_control bookkeeping', 'priority satisfaction over time', 'mandatory-concurrency protocol', 'market::update_allotment',
-                        'isolation filter of arena_slot::get_task (see C01)', 'update_request clamps'],
-        'assumptions': ['no int overflow in new_value - delta (the serializer is fed with differences of small worker counts)'],
+        'trusted': ['arena::get_critical_task, r1::spawn (stamps the spawned task with the dispatcher\'s current isolation), observers: stubs', 'FastRandom::get(): arbitrary value', 'SC atomics; my_is_occupied is only written by try_occupy/release',
+                    'allot.*: integer lemma SL (step contract of the proportional split: q*d + r == mw*share + carry, 0 <= r < d and A*d + carry == share*S imply 0 <= q <= mw, A+q <= share, equality and r == 0 with the last client, invariant preserved); hand proof in c16.c, machine-checked with the real * / % for operands < 32 (allot.lemma) and on the real text for demands <= 7/15 (allot.update_allotment.real_ops); the unbounded job assumes its conclusions only at calls whose shape and linear preconditions it has checked',
+                    'allot.*: the C semantics of / and % on non-negative int operands (0 <= r < d, q >= 0)',
+                    'allot.*: arenas of the clients other than the arbitrary client k are one summary object (the sliced code only writes them)',
+                    'request.adjust_demand: market::update_allotment is a stub that checks the precondition the allot.* jobs assume (demand counters == sums of requests) and that the mutex is held; thread_request_observer::update is a stub',
+                    'request.advertise_new_work / out_of_work: atomic_flag::test_and_set / try_clear_if are stubs with the behaviour proved in flag.* (predicate evaluated only inside the busy window; true only if it held); has_tasks / has_enqueued_tasks nondeterministic; arena::request_workers records its arguments',
+                    'flag.*: every writer of atomic_flag::my_state is test_and_set or try_clear_if (rely = their transitions); a busy token is the address of a live local: never 0 or 1, distinct per thread',
+                    'serializer.*: d1::mutex serialises the sections (each section is one step; other holders leave estimate == min(soft limit, total request)); thread_dispatcher::adjust_job_count_estimate only accumulates; every writer of my_pending_delta is update()',
+                    'empty.has_tasks: task_stream::empty() is `population word == 0`; one fixed state is scanned (tasks published during the scan are the flag protocol\'s business)'],
+        'drops': ['debug pointer/task validity checks -> RG_NOP()', 'local reference aliases (td, a, slot)', 'template<bool as_worker> -> parameter',
+                  'update_allotment: reverse iterators over std::vector<pm_client*> -> reverse position index + CLIST_DEREF(it); static_cast to tbb_permit_manager_client dropped; pm_client::my_arena (a reference) -> PMC_ARENA(client)',
+                  'update_allotment: the three non-linear operations are named ALLOT_MUL/ALLOT_DIV/ALLOT_MOD (real operators in the BD job, step contract in the unbounded job)',
+                  'mutex_type::scoped_lock -> LOCK_MUTEX/UNLOCK_MUTEX at scope exit', 'std::pair<int,int> -> struct int_pair; braced return -> compound literal; int delta{} -> int delta = 0',
+                  'template<new_work_type> -> parameter; atomic_fence_seq_cst() -> RG_NOP() (SC assumed); out_of_work lambdas [this]{ return e; } -> lazily evaluated macro argument',
+                  'atomic_flag: class constants SET/UNSET -> macros; __TBB_fallthrough -> RG_NOP(); Pred&& pred -> STUB_pred()', 'has_tasks: #if __TBB_PREVIEW_CRITICAL_TASKS resolved to 1 (checked against _config.h)',
+                  'wakeup of sleeping threads in arena::request_workers (not sliced: liveness)'],
+        'not_decided': ['"at any instant" thread counts inside an arena (try_join / is_recall_requested against the allotment, num_workers_active): not built',
+                        'observer entry/exit pairing', 'global_control bookkeeping (control_storage, min over active controls, workers = value-1)',
+                        'thread_request_serializer_proxy (mandatory-concurrency enable/disable around a soft limit of 0) and threading_control plumbing between market and serializer',
+                        'priority satisfaction over time (workers actually migrating after a new allotment)', 'isolation filter of arena_slot::get_task (see C01)',
+                        'update_allotment beyond the stated bounds is proved only modulo lemma SL (see trusted); int overflow of max_workers*assigned_per_priority is assumed away',
+                        'termination/liveness: missed wake-ups, the deliberately fence-free spawn path of advertise_new_work',
+                        'F11 (open): thread_request_serializer::update mis-decodes a delta outside [-2^15, 2^15) - job serializer.update.wide fails by design of the split; serializer.update covers the in-range half'],
+        'assumptions': ['no int overflow in new_value - delta (the serializer is fed with differences of small worker counts)',
+                        'allot.*: level demands and the soft limit are at most 2^28; my_total_demand == sum of the level demands, each level demand == sum of its clients\' max_workers, all requests >= 0 (established by request.adjust_demand for one client against the rest); client lists up to 2^12 entries per level in the array model (the loop contracts do not depend on the length)',
+                        'allot.*: client.max_workers() * assigned_per_priority + carry does not overflow int (needs max_num_workers * soft limit < 2^31; otherwise the real code has signed overflow)',
+                        'allot.update_allotment.soft0: when my_mandatory_num_requested > 0 some client has min_workers > 0 AND max_workers > 0 (needed by the in-code assertion assigned == max_workers and by the exact-sum obligation; it can be false transiently - see report)',
+                        'request.*: |outstanding counters| and |deltas| < 2^28; my_max_num_workers <= 2^28; arena priority level < 3; thread-request observer set',
+                        'serializer.update: the sum of the deltas pending in my_pending_delta at any one time lies in [-2^15, 2^15) and fewer than 2^15 calls are pending at once (the other half of the domain is serializer.update.wide = F11)',
+                        'flag.*: fewer than 2^40 epochs'],
     }
 
 
 def replay(ctx, jobname, failure):
-    return {'reproduced': False, 'detail': 'no native recipe: get_critical_task / slot occupation need a running arena with a forced interleaving; see seeded/C16-1/demo.cpp for a public-API scenario'}
+    if jobname != 'serializer.update.wide' and not jobname.startswith('allot.update_allotment'):
+        return {'reproduced': False, 'detail': 'no native recipe: get_critical_task / slot occupation / the flag protocol need a running arena with a forced interleaving; '
+                                               'see seeded/C16-1/demo.cpp for a public-API scenario'}
+    exe = native.build([os.path.join(HERE, 'c16_replay.cpp')], os.path.join(ctx.work, 'c16_replay'), link_tbb=True,
+                       flags=['-fno-access-control'], includes=[os.path.join(native.REPO, 'src')])
+    ins = failure.get('inputs') or {}
+    cmd = [exe, jobname, str(ins.get('IN_delta', 0))]
+    rc, out = native.run(cmd, timeout=300)
+    rep = {'cmd': ' '.join(cmd), 'rc': rc, 'output': out[-1500:], 'reproduced': False, 'detail': 'native recipe found no failing scenario'}
+    m = re.search(r'REPRODUCED (.*)', out)
+    if m:
+        rep['reproduced'] = True
+        rep['detail'] = m.group(1)
+        w = re.search(r'class=(\S+)', m.group(1))
+        rep['witness_class'] = w.group(1) if w else None
+    return rep
